@@ -310,7 +310,9 @@ func BuildBase(name string, cfg Config, seed uint32) (*Base, error) {
 		bb.key("nz", 0x00CC0001)
 		bb.key("y", 0x00DD0002)
 		return bb.finish([]string{"h0", "m0", "t0", "n0", "n1", "nz", "y"}, []string{"l005", "l040", "l070"})
-	case "FL2":
+	case "FL2", "FL3":
+		// FL3 = FL2 plus a second chain (low hash byte 0x01) whose head bucket is exactly full: after ONE of the two free
+		// buckets has been reused by chain 0 (Put(n0)), an insert into chain 1 (Put(nz)) needs the other one.
 		// two entries on the free list and a chain of three exactly full buckets: LCS, then the split (all
 		// keys stay, the chain is rebuilt in two new overflow buckets and the two old ones go to the free
 		// list), then same-chain keys until the third bucket is full. The next same-chain insert takes ONE
@@ -336,6 +338,30 @@ func BuildBase(name string, cfg Config, seed uint32) (*Base, error) {
 		}
 		if bb.err != nil {
 			return nil, bb.err
+		}
+		if name == "FL3" {
+			for i := 0; i < 31 && bb.err == nil; i++ {
+				r := fmt.Sprintf("q%02d", i)
+				bb.key(r, uint32(i+1)<<8|0x01)
+				bb.put(r)
+			}
+			if bb.err == nil {
+				vi, err := bb.s.DB.VerifIndex()
+				if err != nil {
+					return nil, err
+				}
+				full := func(b pogreb.VerifBucket) bool {
+					for _, sl := range b.Slots {
+						if sl.Offset == 0 {
+							return false
+						}
+					}
+					return true
+				}
+				if len(vi.FreeList) != 2 || len(vi.Chains[0]) != 3 || !full(vi.Chains[0][2]) || len(vi.Chains[1]) != 1 || !full(vi.Chains[1][0]) {
+					return nil, fmt.Errorf("base FL3: layout free=%v chain0=%d chain1=%d", vi.FreeList, len(vi.Chains[0]), len(vi.Chains[1]))
+				}
+			}
 		}
 		bb.alias("h0", bb.at(0, 0, 0))
 		bb.alias("m0", bb.at(0, 1, 0))
